@@ -46,6 +46,9 @@ class Slot {
 
 template <typename T>
 class MemoryPool {
+#ifdef BBLANCHON_ARDUINOJSON_VERIF
+  friend struct ::ArduinoJsonVerifInspector;
+#endif
  public:
   void create(SlotCount cap, Allocator* allocator) {
     ARDUINOJSON_ASSERT(cap > 0);
